@@ -75,6 +75,7 @@ def trace_lit(t):
 
 # ---- implementation side --------------------------------------------------------------------------
 DERIVED = []        # (description, problem): derived accessors that disagree with the frequency/impedance views
+EXPORTS = []        # (case, problem): a dictionary export that did not behave as a value (aliasing with the data set it came from)
 
 
 def derived_views(d):
@@ -135,6 +136,51 @@ def observe(d, ok=True, second=True):
             "mask": dict(d.get_mask()), "second": second}
 
 
+def light_views(d):
+    return ([float(x) for x in d.get_frequencies(masked=None)], [complex(x) for x in d.get_impedances(masked=None)],
+            [float(x) for x in d.get_frequencies(masked=False)], [complex(x) for x in d.get_impedances(masked=True)],
+            sorted((int(k), bool(v)) for k, v in d.get_mask().items()))
+
+
+def freeze(e):
+    return json.dumps(e, sort_keys=True, default=str)
+
+
+def check_kept(kept, what, case):
+    """a dictionary export is a value: operations applied to the data set afterwards must not change it"""
+    for e, frozen, _ in kept:
+        if freeze(e) != frozen and len(EXPORTS) < 5:
+            EXPORTS.append((case, "an export taken earlier with to_dict() changed when %s was applied to the data set" % what))
+            return
+
+
+def finish_kept(kept, d, case):
+    """each kept export still imports as the data set it was taken from; writing into an export does not reach any data set"""
+    from pyimpspec import DataSet
+    for e, frozen, views in kept:
+        if len(EXPORTS) >= 5:
+            return
+        try:
+            back = light_views(DataSet.from_dict(e))
+        except Exception as ex:  # noqa
+            EXPORTS.append((case, "a kept export could not be imported after later operations: %s" % type(ex).__name__))
+            return
+        if back != views:
+            EXPORTS.append((case, "a kept export imports as a different data set after later operations on its source"))
+            return
+    now = light_views(d)
+    for e, _, _ in kept:
+        if isinstance(e.get("mask"), dict):
+            for k in list(e["mask"]):
+                e["mask"][k] = not e["mask"][k]
+            e["mask"].clear()
+        for k in ("frequencies", "real_impedances", "imaginary_impedances"):
+            if isinstance(e.get(k), list) and e[k]:
+                e[k][0] = -1.0
+    if light_views(d) != now and len(EXPORTS) < 5:
+        EXPORTS.append((case, "writing into a dictionary returned by to_dict() changed the data set"))
+
+
 def same_views(a, b):
     oa, ob = observe(a), observe(b)
     return all(oa[k] == ob[k] for k in ("all_f", "all_z", "un_f", "un_z", "ma_f", "ma_z", "mask"))
@@ -158,9 +204,16 @@ def run_impl(case):
     except Exception as e:
         return {"ok": False, "caller_mask": caller, "first": None, "steps": [], "exc": type(e).__name__}
     tr = {"ok": True, "caller_mask": caller, "first": observe(d), "steps": [], "exc": None, "step_exc": []}
+    kept = []
     for op in ops:
         t = op[0]
         exc = None
+        if len(kept) < 3 and len(EXPORTS) < 5:
+            try:
+                e_ = d.to_dict()
+                kept.append((e_, freeze(e_), light_views(d)))
+            except Exception:  # noqa
+                pass
         try:
             if t == "set_mask":
                 arg = dress(dict(op[1]))
@@ -201,6 +254,9 @@ def run_impl(case):
             exc = type(e).__name__
             tr["steps"].append(observe(d, False, t != "roundtrip"))
         tr["step_exc"].append(exc)
+        check_kept(kept, t, case)
+    if kept and len(EXPORTS) < 5:
+        finish_kept(kept, d, case)
     return tr
 
 
@@ -342,6 +398,7 @@ def run(rep, tier, seed, tr_errors):
         "hand-written model coq/Data/DataSet.v of data_set.py (constructor, set_mask, views, low/high_pass, subtract, to_dict/_parse/from_dict, duplicate); tie 2 = correspondence on every run",
         "reference model coq/Data/DataSpec.v (list of triples) = the property; theorem: model trace = reference trace for every valid input",
         "tools/harness/C05.py: integer/dyadic data so that float subtraction is exact; JSON round trip through the json module",
+        "dictionary exports are kept across later operations on the implementation side and must stay values (unchanged, importing as the data set they were taken from, not aliasing it) — in the model an export is a value by construction",
         "not modelled: numpy array aliasing of caller arrays, average(), path/label/uuid fields, type validation errors",
     ]
     thm_ok, names, out = lib.check_props_file(rep, PROPS_FILE, expect=[
@@ -376,6 +433,11 @@ def run(rep, tier, seed, tr_errors):
                "%d cases, %d mismatches, %d shards failed" % (len(indexed), len(mism), len(broken)))
     rep.oblige("property-on-observed-traces", not viol and not broken, "%d traces differ from the reference model" % len(viol))
     rep.oblige("derived-accessors-and-average-agree-with-the-views", not DERIVED, "%d problems" % len(DERIVED))
+    rep.oblige("dictionary-exports-are-values", not EXPORTS, "%d problems (a kept export changed, imported differently later, or writing into it reached a data set)" % len(EXPORTS))
+    for n_, (cs, prb) in enumerate(EXPORTS[:3]):
+        rep.violation("export_%d" % n_, {"kind": "counterexample", "obligation": "a dictionary export can be imported again any number of times, whatever happens to its source meanwhile",
+                                         "input": {"frequencies": cs[0], "impedances": [str(z) for z in cs[1]], "mask": None if cs[2] is None else {str(k): v for k, v in cs[2].items()},
+                                                   "ops": [list(map(lambda x: x if not isinstance(x, (complex, dict, list)) else str(x), o)) for o in cs[3]], "problem": prb}})
     for n_, (what, prb) in enumerate(DERIVED[:3]):
         rep.violation("derived_%d" % n_, {"kind": "counterexample", "obligation": "derived accessors are functions of the (f, Z) views", "input": {"accessor": what, "problem": prb}})
     rep.extra["traces_validated_against_impl"] = len(indexed)
